@@ -493,8 +493,11 @@ class FileStoragePacker(FileStorageFormatter):
                 self._file.close()  # else self.gc keeps the original
                 # alive & open
                 self._file = open(self._path, "rb", 0)
-                self._file.seek(0, 2)
-                self.file_end = self._file.tell()
+                # With the commit lock held, the committed data end at
+                # the storage's position.  What may lie beyond it in the
+                # file are the remains of a transaction that was voted
+                # and never finished.
+                self.file_end = self._storage.getSize()
 
             if ipos < self.file_end:
                 self.copyRest(ipos)
@@ -646,21 +649,13 @@ class FileStoragePacker(FileStorageFormatter):
         # After the pack time, all data records are copied.
         # Copy one txn at a time, using copy() for data.
 
-        try:
-            while 1:
-                ipos = self.copyOne(ipos)
-        except CorruptedDataError as err:
-            # The last call to copyOne() will raise
-            # CorruptedDataError, because it will attempt to read past
-            # the end of the file.  Double-check that the exception
-            # occurred for this reason.
-            self._file.seek(0, 2)
-            endpos = self._file.tell()
-            if endpos != err.pos:
-                raise
+        # (We hold the commit lock whenever we look at the storage's
+        # position: copyOne() gives it up while it writes and takes it
+        # again.  Transactions committed meanwhile move the position.)
+        while ipos < self._storage.getSize():
+            ipos = self.copyOne(ipos)
 
     def copyOne(self, ipos):
-        # The call below will raise CorruptedDataError at EOF.
         th = self._read_txn_header(ipos)
         # Release commit lock while writing to pack file
         self._commit_lock.release()
